@@ -163,3 +163,20 @@ Proof.
       * R. rewrite smem_filter, Hvals.
         destruct v as [|x v']; cbn [is_nil negb andb]; [rewrite E0; reflexivity|reflexivity].
 Qed.
+
+(* ---------- tie T: the order of the tests in toPostingGroup is the one modelled ---------- *)
+Require Import Coq.Strings.String.
+Lemma to_posting_group_tests_order :
+  to_posting_group_tests =
+  [("if", "m.Type == labels.MatchRegexp && m.Value == "".*""");
+   ("if", "m.Type == labels.MatchNotRegexp && m.Value == "".*""");
+   ("if", "m.Matches("""")");
+   ("if", "m.Type == labels.MatchNotRegexp");
+   ("if", "m.Type == labels.MatchNotEqual");
+   ("if", "m.Value == """" && (m.Type == labels.MatchEqual || m.Type == labels.MatchRegexp)");
+   ("if", "m.Type == labels.MatchNotRegexp && m.Value == "".+""");
+   ("if", "m.Type == labels.MatchRegexp");
+   ("if", "m.Type == labels.MatchEqual");
+   ("if", "m.Value == """" && (m.Type == labels.MatchNotEqual || m.Type == labels.MatchNotRegexp)");
+   ("if", "m.Type == labels.MatchRegexp && m.Value == "".+""")]%string.
+Proof. reflexivity. Qed.
